@@ -2,6 +2,7 @@
 # usage: canary.sh <patch.diff> <PROP> [extra check args]  -- applies a patch to /repo, runs the check (no evidence), reverts.
 set -u
 patch=$1; prop=$2; shift 2
+[ -z "$(git -C /repo status --porcelain)" ] || { echo "refusing: /repo has uncommitted changes"; exit 3; }
 cd /repo && git apply "$patch" || { echo "patch does not apply"; exit 3; }
 cd /verif && ./check "$prop" --no-evidence "$@" ; rc=$?
 cd /repo && git checkout -- . 
